@@ -100,6 +100,8 @@ class Mask(AbstractNDArray, ABC):
         A dictionary containing the pixel scale of the mask, which can be output to a .fits file.
         """
         try:
+            if any(abs(ps - self.pixel_scales[0]) > 1.0e-8 for ps in self.pixel_scales):
+                raise exc.MaskException
             return {"PIXSCALE": self.pixel_scale}
         except exc.MaskException:
             return {
